@@ -5,6 +5,8 @@
 //! S: a tree-walking reference interpreter: every Rust position is filled from the YAML node at the
 //!    corresponding position; arity, field names, option/null and the three enum notations are
 //!    honoured; anything else must be an error -- never a silent re-synchronisation.
+//!    Fixed families: complex mapping keys (exact / surplus / missing / nested surplus elements), block scalars with
+//!    null-looking text under Option, and `!V payload` == `{V: payload}` over payload types x null-like / numeric texts.
 use crate::ctx::{Ctx, Rng};
 use crate::deserk::{self, DOpts};
 use crate::docgen::{self, Node, Sty};
